@@ -6,6 +6,8 @@
 #include <nitro/format.hpp>
 #include <nitro/options/exception.hpp>
 
+#include <cstring>
+
 namespace h
 {
 static const double DTAB[] = { 0.0, 1.0, -1.5, 0.25, 100.0, 1e6, 1e-3, 123456.0, 2.5e10 };
@@ -13,7 +15,7 @@ static const int NDTAB = 9;
 
 struct Arg
 {
-    int kind = 0; // 0 std::string, 1 long, 2 char, 3 double, 4 const char*
+    int kind = 0; // 0 std::string, 1 long, 2 char, 3 double, 4 const char*, 5 const char[8] (NUL padded)
     std::string s;
     long long i = 0;
     int d = 0;
@@ -55,10 +57,25 @@ struct AnyArg
 {
     const Arg* a;
 };
+// fixed-size character field: the text up to the first NUL, at most 7 characters
+static std::string field_text(const Arg& a)
+{
+    std::string t = a.s.substr(0, 7);
+    return t;
+}
+
 static std::ostream& operator<<(std::ostream& o, const AnyArg& x)
 {
     switch (x.a->kind)
     {
+    case 5:
+    {
+        char field[8] = { 0 };
+        std::string t = field_text(*x.a);
+        std::memcpy(field, t.data(), t.size());
+        const char(&ref)[8] = field;
+        return o << ref;
+    }
     case 0:
         return o << x.a->s;
     case 1:
@@ -76,6 +93,8 @@ static std::string render(const Arg& a)
 {
     switch (a.kind)
     {
+    case 5:
+        return field_text(a);
     case 0:
     case 4:
         return a.s;
@@ -142,7 +161,7 @@ static std::size_t count_placeholders(const std::string& f)
 static Arg gen_arg(vf::Src& src)
 {
     Arg a;
-    a.kind = static_cast<int>(src.weighted({ 40, 20, 10, 10, 20 }));
+    a.kind = static_cast<int>(src.weighted({ 35, 18, 10, 10, 17, 10 }));
     a.s = src.coin(80) ? gen_text(src, 3) : src.bytes_nonul(0, 5);
     if (a.kind == 2 && a.s.empty())
         a.s = "{";
@@ -214,6 +233,20 @@ static void supply_percent(F& f, const Arg& a)
 {
     switch (a.kind)
     {
+    case 5:
+    {
+        // a fixed-size name field reached through a const object
+        struct Rec
+        {
+            char name[8];
+        } rec;
+        std::memset(rec.name, 0, sizeof rec.name);
+        std::string t = field_text(a);
+        std::memcpy(rec.name, t.data(), t.size());
+        const Rec& cr = rec;
+        f % cr.name;
+        break;
+    }
     case 0:
         f % a.s;
         break;
